@@ -6,6 +6,7 @@ TECH = "contract-based deductive verification: sidecar contracts on the real fun
 CHECKS = {
  # id: (category, text, note, design_ref)
  "C01": ("proof", "the real prepare_suit_data / return_processed_binary_data executed symbolically on description shapes with symbolic leaves; every recorded digest is proved to be HASH(declared algorithm, wrapped bytes of the same envelope) for all leaf values, 5 algorithms per field, nesting", "shapes (which members are present) are enumerated, not quantified; hashes and cbor2 are assumed contracts; law A1 used to read the result", "DESIGN.md 3 C01"),
+ "C02": ("other", "P: the real create (to_suit_file) executed on 9 description templates with symbolic leaves writes exactly the bytes the reference translation (contracts/refspec.py, written from the CDDL and the pinned registry, interpreted by the same executor) assigns - for all leaf values, hence every CBOR head width; B: the whole grammar (every name, union alternative, nesting, severed text, CWT, nested recipients, width boundaries, random combinations) through library and CLI, JSON and YAML, byte-compared with the natively run reference", "P is per template shape (members/commands present are fixed, leaves universal); other shapes are B only; cbor2.dumps is an assumed contract; the reference translation is the trusted oracle", "DESIGN.md 3 C02"),
  "C04": ("proof", "contracts on Signer.sign_envelope / already_signed_action / SuitKMS.sign: protected header, Sig_structure over the wrapped digest, one block appended, all other members identical, fixed-width r||s for all r, s; bounded real signing with independent verification beside it", "signature validity itself is the library's (assumed); plug-in loading assumed to yield the shipped scripts; CLI main covered by the bounded stand-in", "DESIGN.md 3 C04"),
  "C07": ("other", "E: slot layouts of both SoCs, default assignments, +16 constant; P: sever() over member subsets, as_intelhex placement/fill/domain filter over role subsets (slot overlap proved impossible from the structural hex-map laws); B: whole image-boot flow read back with independent HEX/CBOR readers", "add_envelope's byte search and the re-encoding identity (C03) are decided by the bounded stand-in; IntelHex assumed", "DESIGN.md 3 C07"),
  "C08": ("proof", "finite vocabulary and key-space tables read from the executed class statements and compared completely with the pinned registry; the three lookups proved for a symbolic key over every closed key space", "the pinned registry (contracts/registry.py) is the oracle", "DESIGN.md 3 C08"),
